@@ -239,6 +239,22 @@ def recheck_all(workers):
         tried.setdefault(r['id'], set()).update(r.get('checks_run', []))
     todo = [i for i, r in sorted(latest.items()) if r['status'] == 'UNDETECTED']
     allp = ['C%02d' % k for k in range(1, 21)]
+    # checks that can observe each file at all (everything that calls into it, directly or not)
+    reach = {
+        'src/util/leap.rs': allp, 'src/util/date/convert.rs': allp, 'src/util/date/validate.rs': allp, 'src/util/constants.rs': allp,
+        'src/util/date/manipulate.rs': 'C02 C04 C05 C07 C09 C10 C15 C16 C17'.split(),
+        'src/util/time/convert.rs': 'C03 C04 C05 C06 C08 C09 C10 C11 C12 C13 C14 C15 C16 C17 C20'.split(),
+        'src/util/time/manipulate.rs': 'C04 C08 C09 C10 C15 C16 C17'.split(),
+        'src/util/time/validate.rs': 'C08 C09 C12 C13 C14 C15 C20'.split(),
+        'src/util/offset.rs': 'C02 C08 C09 C10 C11 C12 C13 C14 C15 C20'.split(),
+        'src/util/format.rs': 'C02 C11 C12 C13 C14 C20'.split(),
+        'src/util/parse.rs': 'C12 C13 C14 C20'.split(),
+        'src/date.rs': 'C01 C02 C03 C04 C05 C06 C07 C09 C11 C12 C14 C15 C20'.split(),
+        'src/time.rs': 'C04 C06 C08 C09 C10 C11 C12 C14 C15 C20'.split(),
+        'src/datetime.rs': allp,
+        'src/offset.rs': 'C08 C09 C10 C11 C12 C13 C15 C18 C19 C20'.split(),
+        'src/cron.rs': 'C14 C16 C17'.split(),
+    }
     print('recheck-all todo', len(todo), flush=True)
     import threading
     lock = threading.Lock()
@@ -248,7 +264,7 @@ def recheck_all(workers):
     def work(i):
         with lock:
             w = slots.pop()
-        rest = [p for p in allp if p not in tried.get(i, set())]
+        rest = [p for p in reach.get(muts[i]['file'], 'C18 C19'.split() if muts[i]['file'].startswith('src/local/') else allp) if p not in tried.get(i, set())]
         m = dict(muts[i], props=' '.join(rest))
         t0 = time.time()
         try:
